@@ -134,6 +134,19 @@ func (vc *FnVC) libModel(in *ssa.Call, callee *ssa.Function) bool {
 			vc.modelUsed(name)
 			return true
 		}
+	case name == "bytes.Count":
+		// only the single-byte separator form is modelled exactly
+		s, sep := vc.val(args[0]), vc.val(args[1])
+		h := vc.heapGet("E$uint8", "(Array Int (Array Int Int))")
+		vc.elemComp(types.Typ[types.Uint8])
+		sepByte := fmt.Sprintf("(select (select %s (s.arr %s)) (s.off %s))", h, sep.S, sep.S)
+		cnt := vc.byteCountTerm(h, s.S, sepByte)
+		r := vc.freshConst("bcount", "Int")
+		vc.fact(fmt.Sprintf("(and (>= %s 0) (<= %s (+ (s.len %s) 1)))", r, r, s.S))
+		vc.fact(fmt.Sprintf("(=> (= (s.len %s) 1) (and (= %s %s) (<= %s (s.len %s))))", sep.S, r, cnt, r, s.S))
+		vc.setRes(in, intT(r))
+		vc.modelUsed(name)
+		return true
 	case strings.HasPrefix(name, "(encoding/binary.bigEndian).") || strings.HasPrefix(name, "(encoding/binary.littleEndian)."):
 		return vc.binaryModel(in, name, args)
 	}
@@ -415,6 +428,14 @@ func (vc *FnVC) binaryModel(in *ssa.Call, name string, args []ssa.Value) bool {
 	vc.setRes(in, Term{S: r, Sort: "Int"})
 	vc.modelUsed(name)
 	return true
+}
+
+// byteCountTerm: count of bytes equal to b in slice s (uninterpreted function of the
+// backing array, offset and length; axioms: 0 <= count <= len).
+func (vc *FnVC) byteCountTerm(heap, s, b string) string {
+	vc.decl("cntb", "(declare-fun cntb ((Array Int Int) Int Int Int) Int)")
+	vc.declAxiom("cntb$ax", "(assert (forall ((a (Array Int Int)) (o Int) (n Int) (b Int)) (! (and (<= 0 (cntb a o n b)) (=> (>= n 0) (<= (cntb a o n b) n))) :pattern ((cntb a o n b)))))")
+	return fmt.Sprintf("(cntb (select %s (s.arr %s)) (s.off %s) (s.len %s) %s)", heap, s, s, s, b)
 }
 
 // ifaceModel handles interface method calls with a model.
